@@ -173,7 +173,7 @@ def r5(ctx, prog):
 
 
 def run(ctx):
-    prog = extract(scope_units())
+    prog = extract('ALL' if ctx.tier == 'thorough' else scope_units())
     ctx.guard(r1, ctx, prog)
     ctx.guard(r2, ctx, prog)
     ctx.guard(r3, ctx, prog)
